@@ -229,7 +229,7 @@ fn main() {
         }
     }
     // seeded part: random sizes, random chains (depth <= 3), random data, with_center in all parities
-    let (n, smax_w, smax_h) = if args.thorough() { (40_000, 33, 9) } else { (3_000, 12, 6) };
+    let (n, smax_w, smax_h) = if args.thorough() { (100_000, 33, 9) } else { (3_000, 12, 6) };
     for _ in 0..n {
         let bpp = *rng.pick(&BPPS);
         let ord = rng.i32(0, 1);
